@@ -17,7 +17,11 @@ func init() {
 			"Not covered: nothing further of the statement; correctness of individual non-required rules is C01/C05.",
 		Assume:  []string{"reflect.Value.IsZero / Len semantics"},
 		Trusted: []string{"go/types", "go/ssa"},
-		Run:     runC03,
+		Run: func(c *Ctx) {
+			runC03(c)
+			importRules(c, "C02", runC02Loop, "C03-LOOP", "skipping a rule on an empty value continues with the next rule: every walker's rule loop leaves only through its header (rule C02-LOOP), so a required placed after another rule is still evaluated", 4, nil)
+			importRules(c, "C04", runC04, "C03-DESCENT", "an empty (zero) sub-object is never descended into, so its inner rules cannot produce an error for an optional field left empty (rule C04-GUARD)", 2, ruleIn("C04-GUARD"))
+		},
 	})
 }
 
